@@ -1,5 +1,17 @@
-"""C02 - Bounding boxes contain everything that is drawn  (metadata; generators live here and/or in props/C02_*.py parts)"""
-CLAIMED = False   # set True by the owner once ./check C02 passes with real theorems
+"""C02 - Bounding boxes contain everything that is drawn  (metadata + implementation-side search; Coq parts in Properties/C02_*.v)"""
+from common import *
+
+CLAIMED = False  # until theorem parts are merged
 LEVEL = 'proof'
 LEVEL_TEXT = 'TODO'
 LEVEL_NOTE = 'TODO'
+RULE = ('search p_bbox: every drawable family of the zoo x random styles (stroke widths 0..24 incl. wider than the shape, 3 alignments, '
+        'fill/stroke present/absent) x positions: every pixel drawn (native and draw_iter-only target) and every pixels() item lies in bounding_box(); '
+        'transparent styles draw nothing.')
+
+
+def search(tier, rng):
+    n = 8000 if tier == 'quick' else 150000
+    for k in range(n):
+        fam = FAMILIES[k % len(FAMILIES)]
+        yield J('p_bbox', zoo_case(rng, fam, maxw=24))
